@@ -71,7 +71,7 @@ def decode_stream(rng, tier, prop):
                 STATS["structured"] += 1
                 yield dec(head + fill)
     # (3) well-formed frames of every class + mutations (+ the model's reserved-bit mask for C05)
-    per_class = 40 if tier == "quick" else 400
+    per_class = 100 if tier == "quick" else 600
     for name in sorted(L.CLASSES):
         for _ in range(per_class):
             raw = L.valid_apdu(rng, name)
